@@ -31,16 +31,19 @@ def _report(rep, f, sym, slot, cases, it, name, rule='R-WINDOW', which=('R-WINDO
         # the derived window is only meaningful if the index obligations hold (a negative slice bound wraps around in Python)
         broken = [(text, line) for (text, ok, line) in it.obligations if not ok]
         if broken and bad is None:
-            rep.fail(rule, f.module.rel, sym, slot + ':index', 'the window of %s is read off under index obligations that do not hold: cannot show that %s -- on those inputs the '
+            rep.fail(rule, f.module.rel, sym, slot, 'the window of %s is read off under index obligations that do not hold: cannot show that %s -- on those inputs the '
                      'operator reads other samples than its window' % (name, broken[0][0]), broken[0][1])
             return False
         return bad is None
     for (text, ok, line) in it.obligations:
-        if text.startswith(('the newest sample lies', 'the early return')):
+        if text.startswith(('the newest sample lies', 'the early return', 'the values are returned in the order')):
             # a condition for the derived window to be the operator's value, not an index: reported with the window
             if not ok and 'R-WINDOW' in which and bad is None and text not in seen:
                 seen.add(text)
-                rep.fail(rule, f.module.rel, sym, slot + ':shortcut', 'the early result of %s is not the value of its window: cannot show that %s' % (name, text), line)
+                if text.startswith('the values'):
+                    rep.fail(rule, f.module.rel, sym, slot + ':order', 'the result of %s is the right list in the wrong order: cannot show that %s' % (name, text), line)
+                else:
+                    rep.fail(rule, f.module.rel, sym, slot + ':shortcut', 'the early result of %s is not the value of its window: cannot show that %s' % (name, text), line)
             continue
         nob += 1
         if not ok and text not in seen:
